@@ -53,12 +53,12 @@ func spaces(prop string, thorough bool) []space {
 			{name: "q-allpoints-P1-D0", uploads: []bool{false}, adds: [][]string{{"A", "A"}, {"A", "B", "A"}, {"A", "B"}}, batch: []int{1, 2}, workers: []int{1, 2}, retries: []int{1}, delays: []int{0}, watch: []int{1}, dry: []bool{false, true}, noEnv: "duration,expiry", p: 1, d: 0, sum: -1, all: true},
 			{name: "q-allpoints-P1-D1", uploads: []bool{false, true}, adds: [][]string{{"A", "A"}, {"A", "B", "A"}}, batch: []int{1, 2}, workers: []int{1, 2}, retries: []int{1}, delays: []int{0}, watch: []int{1}, dry: []bool{false}, noEnv: "duration,expiry", p: 1, d: 1, sum: -1, all: true},
 			{name: "q-allpoints-P2-D0", uploads: []bool{false}, adds: [][]string{{"A", "A"}, {"A", "B", "A"}}, batch: []int{1, 2}, workers: []int{1, 2}, retries: []int{1}, delays: []int{0}, watch: []int{1}, dry: []bool{false}, noEnv: "duration,expiry", p: 2, d: 0, sum: -1, all: true},
-			{name: "q-P1-D1", uploads: []bool{false, true}, adds: append(append([][]string{}, two...), three[0], three[2]), batch: []int{1, 2}, workers: []int{1, 2}, retries: []int{1}, delays: []int{0}, watch: []int{1, 2}, dry: []bool{false}, noEnv: "duration,expiry", p: 1, d: 1, sum: -1},
+			{name: "q-P1-D1", uploads: []bool{false, true}, adds: append(append([][]string{}, two...), three[0], three[2]), batch: []int{1, 2}, workers: []int{1, 2}, retries: []int{1}, delays: []int{0}, watch: []int{1}, dry: []bool{false}, noEnv: "duration,expiry", p: 1, d: 1, sum: -1},
 			{name: "q-P2-D0", uploads: []bool{false}, adds: append(append([][]string{}, two...), three[0]), batch: []int{1, 2}, workers: []int{1, 2}, retries: []int{1}, delays: []int{0}, watch: []int{1, 2}, dry: []bool{false, true}, noEnv: "duration,expiry", p: 2, d: 0, sum: -1},
-			{name: "q-P2-D1", uploads: []bool{false}, adds: [][]string{{"A", "A"}, {"A", "B"}}, batch: []int{1, 2}, workers: []int{2}, retries: []int{1}, delays: []int{0}, watch: []int{1}, dry: []bool{false}, noEnv: "duration,expiry,localfile,begin", p: 2, d: 1, sum: -1},
 		}
 		if thorough {
 			s = append(s,
+				space{name: "t-P2-D1-small", uploads: []bool{false}, adds: [][]string{{"A", "A"}, {"A", "B"}}, batch: []int{1, 2}, workers: []int{2}, retries: []int{1}, delays: []int{0}, watch: []int{1}, dry: []bool{false}, noEnv: "duration,expiry,localfile,begin", p: 2, d: 1, sum: -1},
 				space{name: "t-P2-D1", uploads: []bool{false, true}, adds: append(append([][]string{}, two...), three...), batch: []int{1, 2, 3}, workers: []int{1, 2, 3}, retries: []int{1, 2}, delays: []int{0}, watch: []int{1, 2}, dry: []bool{false}, noEnv: "duration,expiry", p: 2, d: 1, sum: -1},
 				space{name: "t-P1-D2", uploads: []bool{false, true}, adds: append(append([][]string{}, two...), three...), batch: []int{1, 2, 3}, workers: []int{1, 2}, retries: []int{1, 2}, delays: []int{0}, watch: []int{1}, dry: []bool{false}, noEnv: "duration,expiry", p: 1, d: 2, sum: -1},
 				space{name: "t-P3-D0", uploads: []bool{false}, adds: two, batch: []int{1, 2}, workers: []int{1, 2}, retries: []int{1}, delays: []int{0}, watch: []int{1}, dry: []bool{false}, noEnv: "duration,expiry", p: 3, d: 0, sum: -1},
